@@ -140,8 +140,25 @@ def superadditive_games(draw, min_n: int = 3, max_n: int = 5, classes=("int", "d
     cls = draw(st.sampled_from(classes))
     if n > explicit_up_to:
         return seeded_superadditive(n, draw(st.integers(0, 2**32 - 1)), cls)
-    kind = draw(st.sampled_from(["cover", "cover", "cover", "unanimity", "zero-normalised"]))
+    kind = draw(st.sampled_from(["cover", "cover", "cover", "unanimity", "zero-normalised", "zero-rich"]))
     size = 1 << n
+    if kind == "zero-rich":
+        # mixed-sign integer game in which many coalitions over negative singletons are worth EXACTLY 0 (lifted from a negative
+        # best split to 0, which keeps superadditivity): exact zeros are values, not 'nothing known'
+        singles = draw(st.lists(st.integers(-3, 1), min_size=n, max_size=n))
+        lift = draw(st.lists(st.booleans(), min_size=size, max_size=size))
+        sur = draw(st.lists(st.sampled_from([0, 0, 0, 1]), min_size=size, max_size=size))
+        v = [0] * size
+        for i in range(n):
+            v[1 << i] = singles[i]
+        for s_ in by_size(n):
+            if popcount(s_) < 2:
+                continue
+            best = max(v[a] + v[b] for a, b in proper_splits(s_))
+            v[s_] = 0 if (best < 0 and lift[s_]) else best + sur[s_]
+        if cls == "dyadic":
+            v = scale_game(v, draw(st.integers(1, 12)))
+        return {"n": n, "cls": cls, "v": [float(x) for x in v], "how": kind}
     if kind == "unanimity":
         ws = draw(st.lists(st.tuples(st.integers(1, size - 1), st.integers(0, 9)), min_size=1, max_size=8))
         weights: dict[int, float] = {}
